@@ -5,11 +5,35 @@ from vlib import *
 
 def sweep(run, prop, seed, exh, random, nmax, release=False, extra=None):
     tp = os.path.join(OUT, "traces", "%s-sweep-%d.ndjson" % (prop, seed))
-    r = vh(["algo-sweep", "--prop", prop, "--seed", seed, "--exh", exh, "--random", random, "--nmax", nmax, "--out", tp] + (extra or []), release=release, timeout=3600)
-    m = re.search(r"MATRIX (\{.*\})", r.stderr)
+    r = vh(["algo-sweep", "--prop", prop, "--seed", seed, "--exh", exh, "--random", random, "--nmax", nmax, "--out", tp] + (extra or []),
+           release=release, timeout=2400 if run.tier == "thorough" else 900, check=False)
+    m = re.search(r"MATRIX (\{.*\})", r.stderr or "")
     matrix = json.loads(m.group(1)) if m else {}
-    recs = read_ndjson(tp)
-    os.remove(tp)
+    recs = []
+    if os.path.exists(tp):
+        for l in open(tp):
+            try:
+                recs.append(json.loads(l))
+            except Exception:
+                break     # torn last line
+        os.remove(tp)
+    cur = tp + ".cur"
+    during = None
+    if os.path.exists(cur):
+        try:
+            during = json.load(open(cur))
+        except Exception:
+            during = None
+        os.remove(cur)
+    if r.returncode != 0:
+        # the code under test killed the harness (abort, stack overflow, out of memory) or never returned: a violation
+        # located at the input that was being processed, not a tool error
+        if during is None and not recs:
+            raise ToolError("harness algo-sweep failed rc=%s before processing any input: %s" % (r.returncode, (r.stderr or "")[-1500:]))
+        g = during or {"prop": prop, "n": -1, "dir": None, "E": []}
+        log("[harness] algo-sweep died rc=%s while processing %s" % (r.returncode, json.dumps(g)[:200]))
+        run.violation({"kind": "crash", "prop": prop, "rc": r.returncode if r.returncode > -99 else "timeout", "n": g.get("n"), "m": len(g.get("E", [])), "dir": g.get("dir")},
+                      [dict(g, crashed=True)], header={"exec": "algo-sweep"})
     return recs, matrix
 
 
@@ -37,7 +61,12 @@ def replay_oracle(prop, module, path, seed):
     ip = os.path.join(OUT, "traces", "%s-replay-in.ndjson" % prop)
     tp = os.path.join(OUT, "traces", "%s-replay-out.ndjson" % prop)
     write_ndjson(ip, [{"n": rec["n"], "dir": rec["dir"], "E": rec["E"], "args": rec.get("args", {})}])
-    vh(["algo-replay", "--prop", prop, "--in", ip, "--out", tp, "--seed", seed])
+    r = vh(["algo-replay", "--prop", prop, "--in", ip, "--out", tp, "--seed", seed], check=False, timeout=900)
+    if r.returncode != 0:
+        # the recorded input kills / hangs the harness again
+        run.violation({"kind": "crash", "prop": prop, "rc": r.returncode if r.returncode > -99 else "timeout", "n": rec.get("n"), "m": len(rec.get("E", []))},
+                      [rec], header={"exec": "algo-sweep"})
+        return 1
     recs = read_ndjson(tp)
     judge(run, prop, module, recs, "replay")
     return 1 if run.violations else 0
